@@ -71,3 +71,28 @@ DEF_EXEMPT = {
     "the loop body runs at least once: _texts is seeded with one SccCaptionText by __init__ and by clear(), and no "
     "method removes the last element (checked by rule INV-nonempty in C18)",
 }
+
+
+# process-global state that is allowed to change (one line of reason each)
+GLOBAL_CONTAINERS_OK = {
+  "DocumentFilter._all_filters": "filter registry filled once per subclass at import time (__init_subclass__)",
+}
+PROCESS_STATE_OK = {
+  "progress.display_progress_bar": "console progress handler switch (logging only; never reaches the output)",
+}
+
+
+def check_history_independence(ctx, module_names: typing.Iterable[str], rule_alias="STATE-alias", rule_global="STATE-global"):
+  """Shared necessary condition of every `for all documents / inputs` property: the functions of
+  the anchored modules keep no state between calls - no module- or class-level container is
+  mutated, no module / class attribute is rebound, no mutable default argument is mutated.  With
+  such state, the result for one input depends on which inputs were processed before."""
+  from ..rules import shape
+  names = [n for n in dict.fromkeys(module_names) if n in ctx.ix.modules]
+  fs = [f for n in names for f in ctx.ix.funcs_in(n)]
+  for n in names:
+    ctx.unit(ctx.ix.modules[n])
+  a = shape.check_no_global_mutation(ctx, fs, rule=rule_alias, allowed=GLOBAL_CONTAINERS_OK)
+  b = shape.check_no_process_state(ctx, fs, rule=rule_global, allowed=PROCESS_STATE_OK)
+  ctx.ok(rule_global, f"{len(names)} modules|no process-global state is written", "src/main/python/ttconv", f"{len(fs)} functions scanned; {a + b} tabled exceptions")
+  return len(fs)
